@@ -118,8 +118,34 @@ pub trait Field: Sized + Copy + PartialEq + Add<Output = Self> + Sub<Output = Se
     ;
 }
 
+pub trait FieldExtension<const D: usize>: Field {
+    type BaseField: Field;
+
+    // coordinates of an extension element over the base field (D of them)
+    spec fn spec_basefield(self) -> Seq<Self::BaseField>;
+
+    spec fn spec_from_basefield(coords: Seq<Self::BaseField>) -> Self;
+
+    proof fn ax_ext()
+        ensures
+            forall|x: Self| (#[trigger] x.spec_basefield()).len() == D,
+            forall|x: Self| #[trigger] Self::spec_from_basefield(x.spec_basefield()) == x,
+            forall|c: Seq<Self::BaseField>| c.len() == D ==> (#[trigger] Self::spec_from_basefield(c)).spec_basefield() == c,
+    ;
+
+    fn to_basefield_array(&self) -> (r: [Self::BaseField; D])
+        ensures
+            r@ == self.spec_basefield(),
+    ;
+
+    fn from_basefield_array(arr: [Self::BaseField; D]) -> (r: Self)
+        ensures
+            r == Self::spec_from_basefield(arr@),
+    ;
+}
+
 pub trait Extendable<const D: usize>: Field {
-    type Extension: Field;
+    type Extension: Field + FieldExtension<D, BaseField = Self>;
 
     spec fn spec_embed(x: Self) -> Self::Extension;
 
